@@ -279,6 +279,9 @@ pub fn key_pairs() -> Vec<(Item, Item)> {
         u(1),
         arr(vec![NULL]),
         arr(vec![t("x"), t("y"), u(3)]),
+        arr(vec![u(1), u(2), u(1)]),
+        arr(vec![t("a"), u(1), t("a")]),
+        arr(vec![u(2), u(1), u(3), u(2)]),
     ] {
         p.push((u(4), v));
     }
@@ -426,6 +429,10 @@ pub fn msg_slots() -> Vec<Item> {
         arr(vec![r_nest2_bad.clone()]),
         arr(vec![r_nest3_bad.clone()]),
         Item::tag(18, arr(vec![])),
+        // a bare COSE_Signature / COSE_recipient where an array of them belongs
+        sig_valid(),
+        // protected header written as an indefinite-length map
+        Item::Bytes(vec![0xbf, 0x01, 0x26, 0xff]),
     ]
 }
 
@@ -446,6 +453,7 @@ pub fn msg_slots_small() -> Vec<Item> {
         arr(vec![sig_valid()]),
         arr(vec![r_valid]),
         arr(vec![r_bad]),
+        sig_valid(),
     ]
 }
 
